@@ -71,8 +71,14 @@ def run(ctx):
     ctx.absorb(res, "headstate", "TestHeadStateReplay")
     ctx.coverage["behaviours"] = len(behaviours)
     ctx.coverage["steps_replayed"] = res.get("steps", 0)
-    probe = ctx.run_engine(binary, "TestLegacyUpgradeProbe", {}, timeout=600)
-    ctx.coverage["legacy_upgrade_probe"] = probe.get("stats", {}).get("legacy_upgrade_probe", "(none)")
+    try:
+        probe = ctx.run_engine(binary, "TestLegacyUpgradeProbe", {}, timeout=600)
+        ctx.coverage["legacy_upgrade_probe"] = probe.get("stats", {}).get("legacy_upgrade_probe", "(none)")
+    except vlib.Broken as e:
+        # the probe is an observation; it must never turn a recorded violation into BROKEN
+        if not ctx.violations:
+            raise
+        ctx.coverage["legacy_upgrade_probe"] = "not run: " + str(e)[:200]
     ctx.assumptions += [
         "the tries of the upgraded database are in the layout the new state reads (no migration of the legacy "
         "tries exists at the pinned commit; see coverage.legacy_upgrade_probe)",
